@@ -71,7 +71,10 @@ func vxIsClass(p *xgomod.Module, ext string) bool {
 	return ext == ".spx" || ext == ".gsh" || ext == "_test.gox"
 }
 
-var vxC36Pre = []string{"", "_", "a", "a_test", "m."}
+var vxC36Pre = []string{"", "_", "a", "m."}
+
+// concrete endings after the symbolic middle part (extensions of both kinds, class-file suffixes)
+var vxC36Suf = []string{"", ".go", ".gox", "_test.gox", ".spx", ".txt"}
 
 type vxFile struct {
 	name  string
@@ -103,6 +106,7 @@ func vxGenState(tag string, k, L int) []vxFile {
 	fs := make([]vxFile, k)
 	for i := range fs {
 		pre := vxC36Pre[vxConcrete(vxIntRange(0, len(vxC36Pre)-1))]
+		suf := vxC36Suf[vxConcrete(vxIntRange(0, len(vxC36Suf)-1))]
 		n := vxIntRange(0, L)
 		tail := vxString(n)
 		for j := 0; j < len(tail); j++ {
@@ -110,7 +114,7 @@ func vxGenState(tag string, k, L int) []vxFile {
 			// file-name bytes: printable ASCII without '/' (TAB/LF in names are outside this bound)
 			vxAssume(c > ' ' && c < 0x7f && c != '/')
 		}
-		fs[i].name = pre + tail
+		fs[i].name = pre + tail + suf
 		vxAssume(len(fs[i].name) > 0 && fs[i].name != "." && fs[i].name != "..")
 		fs[i].dir = vxBool()
 		fs[i].size = vxIntRange(0, vxParam("R"))
